@@ -132,13 +132,15 @@ static void net_push(int dir, const unsigned char *d, int n)
 /* matrixDtlsGetOutdata / matrixDtlsSentData loop of the reference applications */
 static int drain(mx_ep *e, const char *why)
 {
-    int n, cnt = 0, dir = e->role == MX_SERVER ? 1 : 0;
+    int n, cnt = 0, dir = e->role == MX_SERVER ? 1 : 0, resend = 0;
     for (int guard = 0; guard < 2000; guard++) {
         unsigned char *ob = NULL;
-        int resend = e->ssl->outlen == 0 && !e->ssl->flightDone && !e->ssl->appDataExch;
+        if (e->ssl->outlen == 0) resend = !e->ssl->flightDone && !e->ssl->appDataExch;
+        if (resend && e->ssl->outlen == 0) TRACE("    %s resend request: hsState=%d ckeSize=%d ckeMsg=%p retransmit=%d outsize=%d\n", e->name, e->ssl->hsState, (int) e->ssl->ckeSize, (void *) e->ssl->ckeMsg, e->ssl->retransmit, e->ssl->outsize);
         mx_actor = e->id; e->calls++;
         n = matrixDtlsGetOutdata(e->ssl, &ob);
-        if (n < 0) { e->dead = 1; e->lastrc = n; viol("getoutdata-error-under-benign-network", "%s: matrixDtlsGetOutdata returned %d (%s, hsState %d)", e->name, n, why, e->ssl->hsState); G.failed = 1; break; }
+        if (n < 0) { char cl[48]; snprintf(cl, sizeof cl, "resend-failed-%s-hs%d", e->role == MX_SERVER ? "server" : "client", e->ssl->hsState);
+            e->dead = 1; e->lastrc = n; viol(cl, "%s: matrixDtlsGetOutdata returned %d when asked to retransmit (%s) at hsState %d, ssl->err %d; the session is unusable afterwards", e->name, n, why, e->ssl->hsState, e->ssl->err); G.failed = 1; break; }
         if (n == 0) break;
         if (resend && cnt == 0) { G.retxFlights++; TRACE("    %s retransmits its flight (%s)\n", e->name, why); }
         if (resend) G.retxDg++;
@@ -153,14 +155,15 @@ static int drain(mx_ep *e, const char *why)
     return cnt;
 }
 
-static void state_checks(mx_ep *e, int before, const char *what)
+static void state_checks(mx_ep *e, int before, const char *what, int isdup)
 {
     int role = e->role == MX_SERVER, after = e->ssl->hsState;
     if (g_record_rank) { if (g_rank[role][after] < 0) g_rank[role][after] = g_nrank[role]++; }
     else {
         int rb = g_rank[role][before], ra = g_rank[role][after];
-        if (rb >= 0 && ra >= 0 && ra < rb) viol("hs-state-regressed", "%s: hsState went from %d back to %d on %s", e->name, before, after, what);
-        if (ra < 0) vf_stat("hs_states_outside_clean_path", 1);
+        /* only for duplicated / replayed datagrams: fragment reassembly legitimately revisits states for fresh ones */
+        if (isdup && rb >= 0 && ra >= 0 && ra < rb) viol("hs-state-regressed", "%s: hsState went from %d back to %d on %s", e->name, before, after, what);
+        if (ra < 0 && after != before) vf_stat("hs_states_outside_clean_path", 1);
     }
     int comp = matrixSslHandshakeIsComplete(e->ssl) ? 1 : 0;
     if (G.complete[role] && !comp) viol("handshake-uncompleted", "%s: completed handshake reverted to hsState %d on %s", e->name, after, what);
@@ -189,7 +192,7 @@ static void fire_timeout(mx_ep *e, const char *why)
     TRACE("  timeout at %s (%s) hsState=%d\n", e->name, why, before);
     G.totT++; vf_stat("timeouts_fired", 1);
     drain(e, why);
-    state_checks(e, before, "a timeout retransmission");
+    state_checks(e, before, "a timeout retransmission", 0);
 }
 
 static void deliver(dg_t *g)
@@ -212,14 +215,15 @@ static void deliver(dg_t *g)
             e->name, rc, g->idx, g->copy ? " (duplicate copy)" : "", g->d[0], (g->d[3] << 8) | g->d[4], g->n, before);
         G.failed = 1; return;
     }
-    if (e->nAlertIn) { viol("alert-under-benign-network", "%s received alert level %d desc %d", e->name, e->alertLevel, e->alertDesc); G.failed = 1; return; }
+    if (e->nAlertIn) { viol("alert-received", "%s received alert level %d desc %d", e->name, e->alertLevel, e->alertDesc); G.failed = 1; return; }
     if (e->role == MX_SERVER) {
         if (rc == MATRIXSSL_HANDSHAKE_COMPLETE && !wasDone) G.sResumedComplete = 1;
         if (e->nApp) G.sResumedComplete = 0;
     }
     if (rc == MATRIXSSL_REQUEST_SEND) drain(e, "response");
-    if (e->closeReq) { viol("alert-under-benign-network", "%s queued a fatal alert / close after datagram #%d (hsState %d, ssl->err %d)", e->name, g->idx, before, e->ssl->err); G.failed = 1; return; }
-    state_checks(e, before, g->copy ? "a duplicated datagram" : "a datagram");
+    if (e->closeReq) { char cl[48]; snprintf(cl, sizeof cl, "alert-sent-%s-%d", e->role == MX_SERVER ? "server" : "client", e->ssl->err);
+        viol(cl, "%s answered datagram #%d%s with fatal alert %d and closed (hsState %d before); the network only dropped/duplicated/delayed/reordered", e->name, g->idx, g->copy ? " (duplicate copy)" : "", e->ssl->err, before); G.failed = 1; return; }
+    state_checks(e, before, g->copy ? "a duplicated datagram" : "a datagram", g->copy);
     for (int i = 0; i < G.nsp; i++) if (!G.sp[i].fired && G.sp[i].step == G.step) {
         G.sp[i].fired = 1; G.roundsSinceInterf = 0; G.quietT = 0; vf_stat("spurious_timeouts_fired", 1);
         mx_ep *t = G.sp[i].ep ? &G.S : &G.C;
@@ -639,9 +643,9 @@ int main(int argc, char **argv)
 {
     vf_init(argc, argv); mx_global_init(); mx_keys_load();
     vf_maxsamples = 10;
-    if (vf_case) { int rc = run_case_spec(vf_case); mx_keys_free(); matrixSslClose(); vf_flush(); return rc; }
+    if (vf_case) { setvbuf(stdout, NULL, _IONBF, 0); int rc = run_case_spec(vf_case); mx_keys_free(); matrixSslClose(); vf_flush(); return rc; }
 
-    static const int pmtus[] = { 1500, 600, 256 };
+    static const int pmtus[] = { 1500, 600, 400 };   /* 256 cannot carry a 2048-bit RSA ClientKeyExchange / signature in one datagram */
     int T = vf_thorough;
     vf_rng g; vf_rng_init(&g, vf_seed, 16);
     int ci = 0;
@@ -652,7 +656,7 @@ int main(int argc, char **argv)
         int m = T ? 12 : (i == 2 ? 8 : 9);
         gen_schedules(cfg_get(psk[i].ver, psk[i].suite, 1500, kind), m, T ? 3000 : 24, T ? 2 : 1, &g);
     }
-    if (T) for (int kind = K_FULL; kind <= K_RESUMED; kind++) { mx_entropy_seed(vf_seed * 31 + ci++); gen_schedules(cfg_get(MX_DTLS12, 0x00ae, 256, kind), 10, 500, 1, &g); }
+    for (int kind = K_FULL; kind <= K_RESUMED; kind++) { mx_entropy_seed(vf_seed * 31 + ci++); gen_schedules(cfg_get(MX_DTLS12, 0x00ae, 256, kind), T ? 10 : 6, T ? 500 : 8, 1, &g); }
     /* --- certificate suites: RSA key transport and ECDHE-RSA, CBC and GCM, all PMTUs, three handshake kinds --- */
     static const struct { uint16_t suite; int ver; } cert[] = { { 0x002f, MX_DTLS10 }, { 0x002f, MX_DTLS12 }, { 0x009c, MX_DTLS12 }, { 0xc013, MX_DTLS10 }, { 0xc013, MX_DTLS12 }, { 0xc02f, MX_DTLS12 } };
     for (int i = 0; i < 6; i++) for (int pi = 0; pi < 3; pi++) for (int kind = 0; kind < NKIND; kind++) {
